@@ -49,7 +49,7 @@ func parseFunctions(p *Prog) []*ssa.Function {
 			continue
 		}
 		res := fn.Signature.Results()
-		if res.Len() == 2 && typeStr(res.At(1).Type()) == "error" && !higherOrder(fn) {
+		if res.Len() == 2 && typeStr(res.At(1).Type()) == "error" && !higherOrder(fn) && !multiplyInstantiated(p, fn) && grammarFns[fn.Name()] {
 			out = append(out, fn)
 		}
 	}
@@ -67,6 +67,48 @@ func higherOrder(fn *ssa.Function) bool {
 		}
 	}
 	return fn.Signature.Variadic() && params.Len() > 0 && fn.Name() != "match"
+}
+
+// grammarFns: the parse functions that stand for a construct of the language — the instances the rules were confirmed
+// against (one per nonterminal of grammer.txt, plus the statement forms the grammar lists as alternatives).  Any other
+// method of the same shape is a helper some function was split into (forInitializer, parameterList, blockStatement …);
+// it has no rule of its own and is analysed as part of each caller.
+var grammarFns = map[string]bool{"Parse": true, "declaration": true, "varDeclaration": true, "statement": true, "forStatement": true,
+	"while": true, "IfStatement": true, "printStatement": true, "returnStatement": true, "expressionStatement": true, "function": true,
+	"block": true, "expression": true, "assignment": true, "logicalOR": true, "logicalAnd": true, "bitwiseOR": true, "bitwiseXOR": true,
+	"bitwiseAND": true, "equality": true, "comparison": true, "shift": true, "term": true, "factor": true, "power": true, "unary": true,
+	"call": true, "finishCall": true, "primary": true, "objectLiteral": true, "arrayLiteral": true}
+
+// multiplyInstantiated: a parse helper whose extra parameters are tokens, messages or other non-tree values and which is
+// called from several sites with different constant arguments (expressionList(closing), parenthesized(open, close) …)
+// stands for a different piece of grammar at each site; like the higher-order helpers it is inlined where it is called.
+func multiplyInstantiated(p *Prog, fn *ssa.Function) bool {
+	params := fn.Signature.Params()
+	if params.Len() == 0 {
+		return false
+	}
+	for i := 0; i < params.Len(); i++ {
+		t := params.At(i).Type()
+		if sl, ok := t.Underlying().(*types.Slice); ok {
+			t = sl.Elem()
+		}
+		if nt := namedOf(t); nt != nil && nt.Obj().Pkg() != nil && nt.Obj().Pkg().Name() == "ast" {
+			return false // takes a tree: a grammar function in its own right (finishCall(callee))
+		}
+	}
+	seen := map[string]bool{}
+	for _, cs := range p.CallSites(fn) {
+		c := cs.Common()
+		if c.StaticCallee() != fn {
+			continue
+		}
+		var key []string
+		for _, a := range c.Args[1:] {
+			key = append(key, describe(a))
+		}
+		seen[strings.Join(key, ",")] = true
+	}
+	return len(seen) >= 2
 }
 
 func NewParseModel(p *Prog, fn *ssa.Function) *ParseModel {
@@ -424,7 +466,7 @@ func (m *ParseModel) Branch(mc *Machine, st *State, in *ssa.If, cond AV, taken b
 
 func (m *ParseModel) BackEdge(mc *Machine, st *State, from, to *ssa.BasicBlock) {
 	kind := "loop"
-	if strings.HasPrefix(to.Comment, "rangeindex.loop") || strings.HasPrefix(to.Comment, "rangeiter.loop") {
+	if strings.HasPrefix(to.Comment, "rangeindex.loop") || strings.HasPrefix(to.Comment, "rangeiter.loop") || boundedCountingLoop(to) {
 		kind = "range"
 	}
 	e := &Event{Op: "backedge", Args: []string{kind}, Pos: m.p.InstrPos(to.Instrs[0]), Site: to.Parent().Name() + ":b" + strconv.Itoa(to.Index), KV: map[string]string{"kind": kind}}
